@@ -21,7 +21,8 @@ BATCH_TIMEOUT = {"quick": 300, "thorough": 1200}
 RULE = (
     "cases = the C01 scenarios (scripts x network fates) extended with close() by either side at a seeded instant (before any "
     "packet, mid-handshake, connected, while data is in flight, during a blackout; transport and application codes, with and "
-    "without reason), total and one-way blackouts from a seeded instant with idle timeouts in {0.5,2,10,60} s, timers fired "
+    "without reason), fatal protocol errors provoked in the Initial, Handshake and application spaces of either endpoint, Version "
+    "Negotiation without a common version, total and one-way blackouts from a seeded instant with idle timeouts in {0.5,2,10,60} s, timers fired "
     "exactly on time (deadline clauses decided) or with seeded lateness (only the finite-timer / exactly-once / silence clauses "
     "decided). non-trivial = a run in which at least one endpoint terminated; distinct = hash(who closed or idle, handshake "
     "state at close, timer mode, fate multiset, op multiset)."
@@ -31,8 +32,17 @@ ASSUMPTIONS = [
     "CONNECTION_CLOSE was delivered to it; PTO is read from the connection's recovery object (hooked)",
     "the idle deadline is last authentic packet delivered + max(min(local, remote idle timeout), 3 PTO at that time); earlier "
     "termination is not judged",
-    "fatal protocol errors and Version Negotiation failures are exercised by other checks (C05/C07), not here",
+    "fatal protocol errors are provoked by a packet built with the genuine peer's current send keys (read from hooked state) and a "
+    "fresh packet number; Version Negotiation failure by a front-end that only offers a version the client lacks",
 ]
+
+
+# frames that are a fatal error for either role: unknown frame type; MAX_STREAMS above 2^60; CRYPTO far beyond the
+# buffer limit; RETIRE_CONNECTION_ID of a sequence number never issued; (long header only) STREAM in Initial/Handshake
+FATAL_FRAMES = {
+    "1rtt": ["3f", "12d000000000000001", "06bfffffff0161", "193f", "13d000000000000001"],
+    "long": ["3f", "0a000161", "06bfffffff0161", "1000", "193f"],
+}
 
 
 def floors(tier):
@@ -56,6 +66,12 @@ def gen_case(seed):
     sc = gen_scenario(seed, allow_key_update=rng.random() < 0.3)
     sc["fates"].pop("rebind_after", None) if rng.random() < 0.7 else None
     mode = rng.choice(["close", "close", "close", "blackout", "blackout-oneway", "both-close", "late-timers"])
+    r2 = random.Random("c09-fatal/%s" % seed)
+    x = r2.random()
+    if x < 0.18:
+        mode = "fatal-error"
+    elif x < 0.24:
+        mode = "vn-failure"
     sc["opts"]["idle_client"] = rng.choice([0.5, 2.0, 10.0, 60.0])
     sc["opts"]["idle_server"] = rng.choice([0.5, 2.0, 10.0, 60.0])
     T = sc["fates"]["adv_seconds"]
@@ -72,6 +88,26 @@ def gen_case(seed):
         # keep the idle timer out of the way in pure close runs half of the time
         if rng.random() < 0.5:
             sc["opts"]["idle_client"] = sc["opts"]["idle_server"] = 60.0
+    elif mode == "fatal-error":
+        # a packet the genuine peer could have sent (its keys, a fresh packet number) that is a protocol violation,
+        # in the Initial, Handshake or application packet number space, at a seeded instant
+        side = r2.choice(["client", "server"])
+        ptype = r2.choice(["1rtt", "1rtt", "1rtt", "handshake", "initial"])
+        frames = r2.choice(FATAL_FRAMES["1rtt" if ptype == "1rtt" else "long"])
+        t = r2.choice([0.0, 0.01, 0.03, 0.06, 0.1]) if ptype != "1rtt" else r2.choice([0.1, 0.3, r2.random() * T, r2.random() * T])
+        for k in range(r2.choice([1, 1, 2])):
+            sc["script"].append({"t": round(t + 0.004 * k, 4), "side": side, "op": "forge", "ptype": ptype, "frames_hex": frames, "early": True,
+                                 "pad_to": 1200 if ptype == "initial" else None, "pn_skip": k})
+        sc["opts"].pop("retry", None)
+        if r2.random() < 0.5:
+            sc["opts"]["idle_client"] = sc["opts"]["idle_server"] = 60.0
+    elif mode == "vn-failure":
+        # the server front-end only offers a version the client does not support: the client must give up by itself
+        sc["opts"].update(frontend_vn=True, versions_client=[r2.choice(["v1", "v2"])])
+        sc["opts"]["versions_server"] = ["v2" if sc["opts"]["versions_client"] == ["v1"] else "v1"]
+        sc["opts"].pop("original_version", None)
+        sc["opts"].pop("retry", None)
+        sc["opts"].pop("resume", None)
     else:
         lo = rng.choice([0.0, 0.03, 0.1, rng.random() * T])
         bo = [lo, 1e9]
@@ -196,6 +232,9 @@ def run_batch(batch):
         for k in cm.close_kinds:
             res.count("kind_" + k)
         res.count("mode_" + sc["mode"])
+        for ep in (sim.client, sim.server):
+            if ep is not None and ep.term_event is not None and sc["mode"] in ("fatal-error", "vn-failure"):
+                res.count("%s_%s_terminated_code_0x%x" % (sc["mode"], ep.name, ep.term_event.error_code))
         res.count("endpoints_terminated", len(cm.term))
         if ok:
             res.sample({"seed": seed, "mode": sc["mode"], "idle": [sc["opts"]["idle_client"], sc["opts"]["idle_server"]], "lateness": sc["lateness"],
